@@ -5,6 +5,36 @@ import json, subprocess
 BASELINE = "cd /repo && cargo nextest run --workspace --no-fail-fast --tool-config-file pb:/w/lib/nextest.toml --profile pb --test-threads 8 --offline || (cd /repo && cargo test --workspace --no-fail-fast --offline)"
 
 CLAIMED = {
+ "C03": ("exploration", "solver-sim", "deterministic simulation: consumer stop/resume schedules at the answer-callback seam + history checks on the callback log + reference model",
+         "Fresh enumeration vs. enumerations stopped at every callback position and resumed on the same solver; duplicate/flag/prefix/aggregate checks on the callback log; soundness and (for completing enumerations) completeness against Ref.",
+         "Enumerations capped at 64 callbacks; Ref over depth-2 universe; known findings F8/F10 by signature.", "§6 C03"),
+ "C04": ("exploration", "solver-sim", "deterministic simulation: both solvers as two servers of one perturbed history, pairwise compatibility of their answers",
+         "SLG and recursive solver answer the same seeded history (warm, faulted+retried, permuted/superset DB); after every operation the latest uninterrupted answers for the goal are compared for compatibility; whole corpus + W-gen.",
+         "Lifetimes erased; instance test by one-way matching (undecided shapes never alarm).", "§6 C04"),
+ "C09": ("exploration", "solver-sim", "deterministic simulation: bounded liveness on the database step clock with process isolation and wall-clock guard",
+         "One isolated (world, goal, solver configuration, operation) per run over W-wild, W-gen, coinductive worlds and the whole corpus with default and reduced limits; violation = step budget exhausted, wall-clock guard (re-run in isolation), abort, or an undocumented panic.",
+         "Sampling; known non-termination findings F4/F5 matched by signature computed from the run's spec.", "§6 C09"),
+ "C13": ("exploration", "solver-sim", "deterministic simulation: permutation of every database list answer (seam S1) and of the program text (items, where-clauses, fields) vs the original order",
+         "Fresh answers under K presentation orders at the database seam and at the text level are compared by names with the original order's answers; limit-reached runs excluded by probe.",
+         "Lifetime-free worlds; F14 (weaker/stronger answer under clause order) matched by signature.", "§6 C13"),
+ "C14": ("exploration", "infer-sim", "deterministic simulation: seeded operation histories on InferenceTable refined against a reference unifier",
+         "After every relate of a seeded history (variables in several universes, int/float kinds, snapshots) success and the canonical state of ALL variables must equal the reference unifier's (existence of a unifier, equality, most-generality).",
+         "Reference unifier is the spec; no lifetimes/aliases/binders.", "§6 C14"),
+ "C15": ("exploration", "infer-sim", "deterministic simulation: failing relate as injected fault in seeded histories, state-before == state-after, argument symmetry",
+         "For every failing relate (inside snapshots, after partial bindings) canonical state, universe counter and variable count are unchanged; relate(a,b) and relate(b,a) agree on clones.",
+         "Observation through public API (canonicalize, clones).", "§6 C15"),
+ "C18": ("exploration", "solver-sim", "deterministic simulation: buggify-style equivalence — pre-filter skipped (superset at the database seam, could_match forced true by hook) vs filtered; seam check with the real unifier",
+         "Answers under superset impls / forced could_match / both must equal the filtered answers; every impl the real impls_for_trait dropped from a real query must fail to unify with it under the real unifier.",
+         "Hook: could_match toggle (--cfg chalk_verif). Lifetime worlds: seam check only.", "§6 C18"),
+ "C23": ("exploration", "solver-sim", "deterministic simulation: record through LoggingRustIrDatabase, restart from the printed text in a fresh world, replay and compare",
+         "Goal sequences through one recording wrapper; at restart points the printed program is re-parsed as a new world and the prefix re-solved by fresh solvers; strict and with-stubs stages.",
+         "F6b (goal names an item no callback mentioned) matched by signature.", "§6 C23"),
+ "C27": ("fault_enumeration", "fold-sim", "deterministic fault enumeration: every fault position x mode x element kind x length of the in-place fold, drop ledger + counting allocator, Miri in the thorough tier",
+         "Exhaustive in the bounded space (lengths 0..=8 quick / 0..=24 thorough, all positions, Err and panic, five element kinds, Vec and Box); thorough additionally under Miri.",
+         "Hook: re-export of the in-place routines (--cfg chalk_verif).", "§6 C27"),
+ "C28": ("exploration", "solver-sim", "deterministic simulation: structural monitor on every response of perturbed histories (interrupted, recovered, enumerated)",
+         "Every returned solution / enumerated answer of seeded histories (incl. Suggested guidance after interruptions, answers after recovered panics) is checked structurally against its query.",
+         "Structural only; truth is C01's subject.", "§6 C28"),
  "C01": ("exploration", "solver-sim", "deterministic simulation: reference-model conformance of every response in perturbed histories (warm state, interruptions, recovered panics, permuted/superset database answers)",
          "Every answer of seeded simulated histories on fragment worlds is judged against Ref, an independent three-valued model of the program's logical meaning. The simulator contributes the contexts (warm, interrupted, after a recovered panic, permuted DB); the input quantifier is sampled by W-gen. Sampling, not proof.",
          "Trusts Ref (sim/src/reference.rs) and the bounded universe (depth 2) for goals with unknowns; known findings F8/F10 (SLG coinduction) matched by signature.", "§6 C01"),
@@ -61,7 +91,7 @@ def main():
         })
     m = {
         "version": 1,
-        "setup_cmd": "cd /verif/sim && CARGO_NET_OFFLINE=true cargo build --release --offline && VERIF_ROOT=/verif ./target/release/chalk-sim selftest",
+        "setup_cmd": "cd /verif/sim && CARGO_NET_OFFLINE=true cargo build --release --offline && cd /verif/fold && CARGO_NET_OFFLINE=true cargo build --release --offline && cd /verif && VERIF_ROOT=/verif ./sim/target/release/chalk-sim selftest",
         "hooks": {
             "guard": "--cfg chalk_verif",
             "enable": "RUSTFLAGS --cfg chalk_verif via /verif/sim/.cargo/config.toml (the simulator crate depends on /repo's crates by path)",
@@ -70,7 +100,9 @@ def main():
             "add_only": True,
         },
         "engines": [
-            {"name": "solver-sim", "path": "sim/src", "serves_properties": sorted(CLAIMED.keys()),
+            {"name": "infer-sim", "path": "sim/src/checks/infer.rs", "serves_properties": ["C14", "C15"], "kind_free_text": "operation histories on the real InferenceTable vs a reference unifier (copy-on-snapshot), failing relate as the fault"},
+            {"name": "fold-sim", "path": "fold/src/main.rs", "serves_properties": ["C27"], "kind_free_text": "exhaustive fault-position enumeration for the in-place Vec/Box fold with drop ledger and counting allocator; the same binary runs under Miri"},
+            {"name": "solver-sim", "path": "sim/src", "serves_properties": sorted(k for k, v in CLAIMED.items() if v[1] == "solver-sim"),
              "kind_free_text": "single-process deterministic simulator: SimDb seam (step clock, panic injection, answer permutation/superset), should_continue and answer-callback schedules, operation histories on warm/shared solver state; isolated worker processes with wall-clock guard; one PRNG stream per run derived from VERIF_SEED"},
         ],
         "checks": checks,
